@@ -250,7 +250,15 @@ def r5(ctx):
     ctx.floor(R, 2)
 
 
+def r6(ctx):
+    R = "C17-R6"
+    ctx.rule(R, "sibling agreement: tcp::auto_bind and udp::auto_bind (implicit bind on first connect / send) use the same table API and fields")
+    sibling_rule(ctx, R, "turmoil_net::kernel::tcp::auto_bind", "turmoil_net::kernel::udp::auto_bind")
+    ctx.floor(R, 1)
+
+
 def run(ctx):
+    r6(ctx)
     r1(ctx)
     r2(ctx)
     r3(ctx)
